@@ -271,7 +271,7 @@ def c20e(ctx):
               fail='an error response can be returned without no-store headers')
 
 
-@rule('C20.f', floor=3)
+@rule('C20.f', floor=4)
 def c20f(ctx):
     """results that must not be cached are never stored: every cache store of a creator is guarded by the cacheable flag
     of what was fetched"""
@@ -289,6 +289,14 @@ def c20f(ctx):
     ok = bool(sets) and all(same(s.value, 'source.cacheable') for s in sets)
     ctx.check(ok, 'TileCreator._create_single_tile:flag-propagated', 'the tile carries the cacheable flag of the fetched image (it reaches the response headers)', fn,
               fail='the cacheable flag of the fetched image is not copied to the tile: an error tile is served with public cache headers')
+    # the bulk creator builds its tiles one by one from the images it fetched: each carries the flag of its own image
+    fb = ctx.fn(T + ':TileCreator._create_bulk_meta_tile')
+    tcs = [x for x in fb.walk_all() if is_call(x, 'Tile') and len(x.args) + len(x.keywords) >= 2]
+    ok = bool(tcs) and all(keyword(x, 'cacheable', 2) is not None and unparse(keyword(x, 'cacheable', 2)).endswith('.cacheable') and
+                           not unparse(keyword(x, 'cacheable', 2)).startswith('self.') for x in tcs)
+    ctx.check(ok, 'TileCreator._create_bulk_meta_tile:flag-propagated', 'each tile of a bulk meta tile carries the cacheable flag of the image fetched for it', fb,
+              fail='the bulk creator builds its tiles without the cacheable flag of the fetched image (default: cacheable): an uncached error image '
+                   'is written over the old tile and served as a regular tile')
     sm = ctx.fn(T + ':split_meta_tiles')
     tc = [x for x in sm.walk() if is_call(x, 'Tile')]
     ok = bool(tc) and all(unparse(keyword(x, 'cacheable') or ast.Constant(value=None)) == '%s.cacheable' % sm.params[0] for x in tc)
